@@ -37,7 +37,7 @@ WIDTHS = [None, "0", "1", "40", "120"]
 def cases(tier: str) -> list[dict[str, Any]]:
     th = tier == "thorough"
     cs: list[dict[str, Any]] = []
-    for entry in ["text", "file_stdout", "file_output", "file_inplace", "files_inplace", "files_stdout", "stdin_stdout", "stdin_output"]:
+    for entry in ["text", "file_stdout", "file_output", "file_inplace", "files_inplace", "files_stdout", "files_stdout_alias", "stdin_stdout", "stdin_output"]:
         cs.append(dict(key=f"api/{entry}", kind="api", entry=entry))
     inputs = ["file", "stdin", "two"]
     outputs = ["stdout", "ofile", "inplace"]
@@ -50,6 +50,8 @@ def cases(tier: str) -> list[dict[str, Any]]:
             for ls in ([None] + LS if th else [None, "tight"]):
                 for w in (WIDTHS if th else [None, "40", "0"]):
                     cs.append(dict(key=f"cli/{inp}/{outp}/ls={ls}/w={w}", kind="cli", inp=inp, outp=outp, ls=ls, w=w))
+    for w in [None, "40"]:
+        cs.append(dict(key=f"cli/alias/stdout/ls=None/w={w}", kind="cli", inp="alias", outp="stdout", ls=None, w=w))
     cs.append(dict(key="cli/noinput", kind="cli", inp="none", outp="stdout", ls=None, w=None))
     cs.append(dict(key="twin/api", kind="api", entry="file_stdout", twin=True))
     return cs
@@ -188,6 +190,12 @@ def _run_api(env: Any, case: dict[str, Any]) -> Any:
             ra.reformat_files(["a.md", "b.md"], "-", inplace=False, nobackup=nobackup, **fmt_kw)
             sinks.append((out.getvalue(), ref + ref2))
             sinks.append(((d / "a.md").read_text(), DOC))
+        elif entry == "files_stdout_alias":
+            # the same file named twice (second time through another spelling): "each file gets exactly the result
+            # it would get alone" - three arguments, three results, in argument order
+            ra.reformat_files(["a.md", "b.md", "./a.md"], "-", inplace=False, nobackup=nobackup, **fmt_kw)
+            sinks.append((out.getvalue(), ref + ref2 + ref))
+            sinks.append(((d / "a.md").read_text(), DOC))
         elif entry == "stdin_stdout":
             ra.reformat_files(["-"], "-", inplace=False, nobackup=nobackup, **fmt_kw)
             sinks.append((out.getvalue(), ref))
@@ -202,9 +210,9 @@ def _run_api(env: Any, case: dict[str, Any]) -> Any:
         if symbolic:
             # (1) every formatter call made through the entry point received exactly the options
             ref_calls, ep_calls = rec.calls[:nref], rec.calls[nref:]
-            env.prove(len(ep_calls) == (2 if entry.startswith("files_") else 1), label, f"{len(ep_calls)} formatter calls")
+            env.prove(len(ep_calls) == (3 if entry.endswith("_alias") else 2 if entry.startswith("files_") else 1), label, f"{len(ep_calls)} formatter calls")
             for i, (kind, args) in enumerate(ep_calls):
-                rk, rargs = ref_calls[min(i, len(ref_calls) - 1)]
+                rk, rargs = ref_calls[0 if (entry.endswith('_alias') and i == 2) else min(i, len(ref_calls) - 1)]
                 env.prove(kind == rk, label, f"formatter {kind} vs text API {rk}")
                 if kind != rk:
                     continue
@@ -250,7 +258,7 @@ def _run_cli(env: Any, case: dict[str, Any]) -> Any:
         argv += ["-o", "out.md"]
     if outp == "inplace":
         argv.append("--inplace")
-    argv += {"file": ["a.md"], "stdin": ["-"], "two": ["a.md", "b.md"], "none": []}[inp]
+    argv += {"file": ["a.md"], "stdin": ["-"], "two": ["a.md", "b.md"], "alias": ["a.md", "b.md", "./a.md"], "none": []}[inp]
     auto = flags["auto"]
     opts = dict(
         width=int(case["w"]) if case["w"] is not None else 88,
@@ -278,7 +286,7 @@ def _run_cli(env: Any, case: dict[str, Any]) -> Any:
             env.prove(after == before and stdout == "", label, f"usage error wrote something argv={argv}")
             return "usage"
         env.prove(code == 0, label, f"exit code {code} argv={argv}")
-        files = ["a.md"] if inp == "file" else ["a.md", "b.md"] if inp == "two" else []
+        files = ["a.md"] if inp == "file" else ["a.md", "b.md"] if inp == "two" else ["a.md", "b.md", "a.md"] if inp == "alias" else []
         refs = {"a.md": ref, "b.md": ref2}
         srcs = {"a.md": DOC, "b.md": DOC2}
         exp = dict(before)
